@@ -25,6 +25,8 @@ pub enum Action {
     /// withdraw vault shares held by the borrower
     WithdrawShares { vault: String, lp: String, amount: Uint128 },
     CollectFees { vault: String },
+    /// hostile: call the vault's internal AfterTrade callback from outside
+    CallAfterTrade { vault: String, old_balance: Uint128, loan_amount: Uint128 },
     /// take another loan; `program` is what the borrower does in that loan's callback
     Loan { vault: String, amount: Uint128, program: Vec<Action> },
     /// take a loan through the vault router; payload = messages the router runs
@@ -96,6 +98,12 @@ pub fn action_msgs(self_addr: &str, a: &Action) -> StdResult<Vec<CosmosMsg>> {
         Action::CollectFees { vault } => vec![WasmMsg::Execute {
             contract_addr: vault.clone(),
             msg: to_json_binary(&vault::ExecuteMsg::CollectProtocolFees {})?,
+            funds: vec![],
+        }
+        .into()],
+        Action::CallAfterTrade { vault, old_balance, loan_amount } => vec![WasmMsg::Execute {
+            contract_addr: vault.clone(),
+            msg: to_json_binary(&vault::ExecuteMsg::Callback(vault::CallbackMsg::AfterTrade { old_balance: *old_balance, loan_amount: *loan_amount }))?,
             funds: vec![],
         }
         .into()],
